@@ -1,0 +1,9 @@
+//go:build verif
+
+package program
+
+// Contracts for the deductive checker in /verif (comment-only file).
+
+//vc:func (*Config).GetUserPass
+//vc:  set loginPass = result1
+//vc:  ensures[C11] loginPass == result1
